@@ -73,9 +73,12 @@ theorem frechet_closed_form (rows : List (MRow F)) (i : Nat)
   have hab : (0 : F) < ((cntED rows i true : Nat) : F) + ((cntED rows i false : Nat) : F) := by
     exact_mod_cast hpos
   have hw := width_one rows i
+  have hn : (0 : F) < (((complete rows).length : Nat) : F) := by
+    have := L19.level_le_complete rows i
+    exact_mod_cast (by omega : 0 < (complete rows).length)
   have hl : (frechet rows i).1 = -(b + yo) / n := by
     simp only [frechet]
-    rw [L19.fr_lower_closed _ _ _ _ hab.ne']
+    rw [L19.fr_lower_closed _ _ _ _ hab.ne' hn.ne']
     congr 1; ring
   refine ⟨hl, ?_⟩
   rw [hl, neg_div] at hw; linarith
@@ -134,7 +137,7 @@ theorem bounds_sharp (rows : List (MRow F)) (i : Nat)
     rw [f1] at c1; rw [f2] at c0
     rw [← ra] at c1; rw [← ryo, ← ra, ← rb] at c0
     simp only [frechet, causalRD, c1, c0, hlen, Nat.cast_add, add_zero]
-    rw [L19.fr_lower_closed _ _ _ _ hab.ne']
+    rw [L19.fr_lower_closed _ _ _ _ hab.ne' hn.ne']
     field_simp; ring
   · refine ⟨complUpper (observed rows i), L19.complUpper_isCompletion _, ?_⟩
     obtain ⟨c1, c0, -, -⟩ := counts_of_completion (complUpper (observed rows i))
